@@ -816,6 +816,80 @@ func hw2(bound *big.Int) []*big.Int {
 	return out
 }
 
+// limbPatterns: all stored-limb patterns over {0, 1, 2^63, 2^64-1}^4 below the modulus. Equality / zero tests
+// combine the four limbs; a wrong combination (XOR or ADD instead of OR, an ignored limb) only shows on
+// operands whose limb differences cancel, which no value alphabet contains by accident.
+func limbPatterns(mod *big.Int) [][4]uint64 {
+	lv := []uint64{0, 1, 1 << 63, ^uint64(0)}
+	var out [][4]uint64
+	for a := 0; a < 4; a++ {
+		for b := 0; b < 4; b++ {
+			for c := 0; c < 4; c++ {
+				for d := 0; d < 4; d++ {
+					l := [4]uint64{lv[a], lv[b], lv[c], lv[d]}
+					if limbsBig(l).Cmp(mod) < 0 {
+						out = append(out, l)
+					}
+				}
+			}
+		}
+	}
+	return out
+}
+
+func explorePredicateMatrix() {
+	pats := limbPatterns(ref.N)
+	mc.Par(len(pats), func(i int) {
+		a := secp256k1.NewScalar()
+		secp256k1.VerifScalarSetLimbs(a, pats[i])
+		wz := uint64(0)
+		if pats[i] == [4]uint64{} {
+			wz = 1
+		}
+		if a.IsZero() != wz {
+			R.Fail("scalar/IsZero/limb pattern", "limbpred", map[string]any{"stored_limbs": fmt.Sprint(pats[i]), "got": a.IsZero()}, nil)
+		}
+		// the half-order test on the value these limbs represent
+		v := lib2val(a)
+		wh := uint64(0)
+		if v.Cmp(ref.HalfN) > 0 {
+			wh = 1
+		}
+		if a.IsGreaterThanHalfN() != wh {
+			R.Fail("scalar/IsGreaterThanHalfN/limb pattern", "limbpred", map[string]any{"stored_limbs": fmt.Sprint(pats[i]), "value": hexv(v), "got": a.IsGreaterThanHalfN()}, nil)
+		}
+		for j := range pats {
+			b := secp256k1.NewScalar()
+			secp256k1.VerifScalarSetLimbs(b, pats[j])
+			want := uint64(0)
+			if pats[i] == pats[j] {
+				want = 1
+			}
+			if a.Equal(b) != want {
+				R.Fail("scalar/Equal/limb patterns", "limbpred", map[string]any{"stored_limbs_a": fmt.Sprint(pats[i]), "stored_limbs_b": fmt.Sprint(pats[j]), "Equal": a.Equal(b), "want": want}, nil)
+			}
+		}
+		R.T(int64(len(pats) + 2))
+	})
+	R.Class("predicates/pairs of stored-limb patterns {0,1,2^63,2^64-1}^4", int64(len(pats)*len(pats)))
+	// half-order test on NON-Montgomery limb patterns too: value = (n-1)/2 + delta for delta in single-limb patterns
+	for l := 0; l < 4; l++ {
+		for _, w := range []uint64{1, 1 << 63, ^uint64(0), 1 << 32} {
+			var dl [4]uint64
+			dl[l] = w
+			for _, sign := range []int{1, -1} {
+				v := new(big.Int).Add(ref.HalfN, new(big.Int).Mul(big.NewInt(int64(sign)), limbsBig(dl)))
+				if v.Sign() < 0 || v.Cmp(ref.N) >= 0 {
+					continue
+				}
+				R.Run("scalar/predicates/half order +- single-limb delta", "pred", mc.D{"a": hexv(v)})
+			}
+		}
+	}
+}
+
+func lib2val(s *SC) *big.Int { return ref.OS2IP(s.Bytes()) }
+
 func exploreMisc() {
 	for _, u := range mc.Uint64s {
 		R.Run("scalar/NewScalarFromUint64", "u64", mc.D{"v": fmt.Sprintf("%x", u)})
@@ -870,6 +944,7 @@ func main() {
 	R.Bound("steered_pairs", len(pairs))
 	R.Bound("alias_patterns", "all set partitions of {receiver,a,b} (5) / {receiver,a} (2); vectors: all restricted-growth pointer patterns x receiver in/out of the vector")
 	exploreMisc()
+	explorePredicateMatrix()
 	exploreVectors()
 	exploreDecode(sc)
 	exploreArith(sc, pairs)
